@@ -531,21 +531,21 @@ def _run(ctx, proof, h, model, erg, acc, rng, vers, work):
     writer_round(ctx, h, model, pairs, acc, "corpus")
     # ---- (1)(2)(3a) constants
     pairs = [(ver, v) for v in boundary_values(rng) for ver in vers]
-    n = ctx.scale(450, 20000)
+    n = ctx.scale(450, 8000)
     for _ in range(n):
         pairs.append((rng.choice(vers), g_value(rng, 4, allow_other=True)))
-    for _ in range(ctx.scale(3, 40)):
+    for _ in range(ctx.scale(3, 24)):
         pairs.append((rng.choice(vers), [3, g_str_cps(rng, big=True)]))
     pairs.append((rng.choice(vers), [6, [[5]] * 256]))
     pairs.append((rng.choice(vers), [6, [[0, 1]] * 255]))
-    for _ in range(ctx.scale(40, 1500)):
+    for _ in range(ctx.scale(40, 600)):
         pairs.append((rng.choice(vers), [8, g_code(rng, 3)]))
     ctx.log("constants: %d cases" % len(pairs))
     writer_round(ctx, h, model, pairs, acc, "constant")
     ctx.log("constants done")
 
     # ---- reference reader alone: malformed stream + depth limit
-    mal = malformed_py_stream(rng, ctx.scale(800, 40000))
+    mal = malformed_py_stream(rng, ctx.scale(800, 15000))
     mal += [nest(PY_DEPTH - 1), nest(PY_DEPTH), nest(PY_DEPTH + 1)]
     for ver in vers:
         minor = int(ver.split(".")[1])
@@ -576,7 +576,7 @@ def _run(ctx, proof, h, model, erg, acc, rng, vers, work):
     variants = []     # (label, what, original?, bytes)
     for label, ver, data in files:
         variants.append((label, "as written", True, data))
-        for what, b in mutate(rng, data, ctx.scale(20, 400)):
+        for what, b in mutate(rng, data, ctx.scale(20, 150)):
             variants.append((label, what, False, b))
     for label, data in corpus_files:
         variants.append((label, "corpus", False, data))
@@ -637,7 +637,7 @@ def _run(ctx, proof, h, model, erg, acc, rng, vers, work):
         ctx.case(["file-in-python", label], nontrivial=o[0] >= 0)
 
     # ---- (4) CLI
-    k = ctx.scale(70, 1500)
+    k = ctx.scale(70, 600)
     pick = [i for i, v in enumerate(variants) if v[2] or v[0].startswith("nest") or v[1] == "known"]
     rest = [i for i in range(len(variants)) if i not in set(pick)]
     rng.shuffle(rest)
